@@ -213,7 +213,8 @@ def deep_start_case(srcs, second=None):
                 class Provider(ResourceProvider):
                     def resource(self):
                         p = current['srcs'][i - 1]
-                        return Resource({real_key[k]: 'src%d' % i for k in p['keys']}, p['schema'] or None)
+                        return Resource({real_key[k]: ('' if (k == 'svc' and p.get('blank')) else 'src%d' % i)
+                                         for k in p['keys']}, p['schema'] or None)
                 Provider.__name__ = 'P%d' % i
                 return Provider
             setattr(m, 'P%d' % i, make())
@@ -293,8 +294,12 @@ def deep_start_case(srcs, second=None):
 
 
 def deep_start_leg(c, quick):
-    cfg = dict(constants=dict(NPlugins=2, NoCode=True), invariants=['ServiceNameAlways', 'ServiceNameNotBlankAfterCreate',
-                                                                  'LaterWins'], deadlock=False)
+    cfg = dict(constants=dict(NPlugins=2, NoCode=True, PluginMayBlank=False), invariants=['ServiceNameAlways', 'ServiceNameNotBlankAfterCreate',
+                                                                  'ServiceNameNeverBlank', 'LaterWins'], deadlock=False)
+    c.mc('ResourceMerge', cfg, label='Deep.start: env, 2 plugins (a plugin may provide an empty service name)',
+         must_cover=['Provide', 'MergeNext'])
+    c.mc_expect_violation('ResourceMerge', dict(cfg, constants=dict(NPlugins=2, NoCode=True, PluginMayBlank=True)),
+                          "deviation: a plugin's empty service name overrides the name", what='ServiceNameNeverBlank')
     sim = tlc.simulate('ResourceMerge', cfg, num=60 if quick else 2000, depth=12, seed=c.seed + 9)
     c.transitions += sim.generated
     seen = set()
@@ -346,9 +351,9 @@ def deep_start_leg(c, quick):
 
 
 def resource_leg(c, quick):
-    c.mc('ResourceMerge', dict(constants=dict(NPlugins=2, NoCode=False), invariants=['ServiceNameAlways', 'ServiceNameNotBlankAfterCreate', 'LaterWins'],
+    c.mc('ResourceMerge', dict(constants=dict(NPlugins=2, NoCode=False, PluginMayBlank=False), invariants=['ServiceNameAlways', 'ServiceNameNotBlankAfterCreate', 'ServiceNameNeverBlank', 'LaterWins'],
                                deadlock=False), label='env, code, 2 plugins', must_cover=['Provide', 'MergeNext'])
-    sim = tlc.simulate('ResourceMerge', dict(constants=dict(NPlugins=2, NoCode=False), invariants=['ServiceNameAlways', 'ServiceNameNotBlankAfterCreate', 'LaterWins'],
+    sim = tlc.simulate('ResourceMerge', dict(constants=dict(NPlugins=2, NoCode=False, PluginMayBlank=False), invariants=['ServiceNameAlways', 'ServiceNameNotBlankAfterCreate', 'ServiceNameNeverBlank', 'LaterWins'],
                                              deadlock=False), num=150 if quick else 4000, depth=12, seed=c.seed + 8)
     c.transitions += sim.generated
     seen = set()
@@ -381,6 +386,86 @@ def resource_leg(c, quick):
                     return
 
 
+def limits_leg(c):
+    """Containers of ANY configuration: the value limit as a parameter (the recorded runs use one limit). A limit that
+    is no limit at all (negative) is refused like a negative capacity is, or - if accepted - still only ever shortens a
+    string to a prefix of at most max(limit, 0) characters."""
+    from deep.api.attributes import BoundedAttributes
+    for limit in (None, 0, 1, 3, 5, 10, 11, -1, -3):
+        for cap in (None, 0, 1, 2):
+            problems = []
+            try:
+                box = BoundedAttributes(max_length=cap, immutable=False, max_value_len=limit)
+            except ValueError:
+                if limit is None or limit >= 0:
+                    problems.append('a valid configuration was refused')
+                box = None
+            if box is not None:
+                for given in ('', 'a', 'hello', 'abcdefghij', 'abcdefghijk'):
+                    box['k'] = given
+                    box['s'] = [given, 'zz']
+                    for got in ([box['k'], box['s'][0]] if cap is None or cap >= 2 else []):
+                        if limit is None:
+                            ok = got == given
+                        else:
+                            ok = given.startswith(got) and len(got) == min(len(given), max(limit, 0))
+                        if not ok:
+                            problems.append('limit %r: %r stored as %r' % (limit, given, got))
+            c.traces_validated += 1
+            c.note_case(key=('limits', limit, cap), nontrivial=True)
+            if problems:
+                path = c.save_replay({'leg': 'limits', 'value_limit': limit, 'capacity': cap, 'problems': problems})
+                if c.violation('BoundedAttributes(max_length=%r, max_value_len=%r): %s' % (cap, limit, problems[:3]), path):
+                    return
+
+
+def executable_name_leg(c):
+    """ServiceNameAlways for every code-provided attribute set: the fallback name is built from
+    process.executable.name, which - like every attribute - may be text, a number, a flag, bytes or a sequence."""
+    from deep.api.resource import Resource, SERVICE_NAME, PROCESS_EXECUTABLE_NAME
+    saved = {k: os.environ.pop(k, None) for k in ('DEEP_RESOURCE_ATTRIBUTES', 'DEEP_SERVICE_NAME')}
+    try:
+        for label, exe in (('text', 'worker'), ('number', 123), ('zero', 0), ('flag', True), ('float', 1.5),
+                           ('bytes', b'worker'), ('sequence', ['a', 'b']), ('tuple', ('a', 'b')), ('empty', ''),
+                           ('invalid', {'a': 1})):
+            for env_exe in (False, True):
+                for given_name in (None, '', 'mine'):
+                    problems = []
+                    attrs = {PROCESS_EXECUTABLE_NAME: exe}
+                    if given_name is not None:
+                        attrs[SERVICE_NAME] = given_name
+                    os.environ.pop('DEEP_RESOURCE_ATTRIBUTES', None)
+                    if env_exe:
+                        os.environ['DEEP_RESOURCE_ATTRIBUTES'] = 'process.executable.name=fromenv'
+                    try:
+                        res = Resource.create(attrs)
+                        name = res.attributes.get(SERVICE_NAME)
+                        if not isinstance(name, str) or not name:
+                            problems.append('service name %r' % (name,))
+                        elif given_name and name != given_name:
+                            problems.append('the given service name %r became %r' % (given_name, name))
+                        elif not given_name and not name.startswith('unknown_service:'):
+                            problems.append('fallback name %r' % (name,))
+                        for must in ('telemetry.sdk.language', 'telemetry.sdk.name', 'telemetry.sdk.version'):
+                            if not res.attributes.get(must):
+                                problems.append('mandatory key %s missing' % must)
+                    except Exception as e:
+                        problems.append('Resource.create raised %s: %s' % (type(e).__name__, e))
+                    c.traces_validated += 1
+                    c.note_case(key=('exe-name', label, env_exe, given_name), nontrivial=True)
+                    if problems:
+                        path = c.save_replay({'leg': 'executable_name', 'executable_name': repr(exe), 'from_env_too': env_exe,
+                                              'service_name_given': given_name, 'problems': problems})
+                        if c.violation('Resource.create with process.executable.name=%r (service name given: %r): %s'
+                                       % (exe, given_name, problems[:2]), path):
+                            return
+    finally:
+        for k, v in saved.items():
+            os.environ.pop(k, None)
+            if v is not None:
+                os.environ[k] = v
+
+
 def run(c):
     quick = c.tier == 'quick'
     rng = random.Random(c.seed)
@@ -392,6 +477,8 @@ def run(c):
     c.assumptions = ['Freeze is modelled by setting the flag the constructor sets last',
                      'environment-provided attributes are given through DEEP_RESOURCE_ATTRIBUTES / DEEP_SERVICE_NAME']
     attributes_leg(c, rng, quick)
+    limits_leg(c)
+    executable_name_leg(c)
     resource_leg(c, quick)
     deep_start_leg(c, quick)
 
